@@ -37,30 +37,25 @@ def httpcore_stack(stop_name="__mc_root__"):
     return out
 
 
-class NetState:
-    """Canonical view of the simulated network for fingerprints: what can still
-    influence the future, not the history (ledger)."""
-
-    def __init__(self, net):
-        self.net = net
-
-    def _mc_state(self):
-        net = self.net
-        return ("net", [(t.id, t.closed, bytes(t.inbound), t.peer_eof, len(t.layers), t.peer) for t in net.transports],
-                net.connects_in_flight, len(net.pending))
+def _tr_key(t):
+    return (str(t.host), str(t.port), t.closed, len(t.written), len(t.inbound), t.peer_eof, len(t.layers))
 
 
 def _net_rule(net):
-    return NetState(net)._mc_state()
+    # what can still influence the future, not the history (ledger); open transports in a canonical order,
+    # closed ones only as a count
+    opn = sorted((t for t in net.transports if not t.closed), key=_tr_key)
+    return ("net", opn, len(net.transports) - len(opn), net.connects_in_flight, sorted(net.pending, key=lambda o: str(o.task)))
 
 
 def _op_rule(op):
-    return ("op", op.kind, None if op.tr is None else op.tr.id, op.layer,
+    return ("op", op.kind, op.tr, op.layer, op.task, op.state,
             {k: v for k, v in op.args.items() if k != "ssl_context"}, type(op.forced).__name__)
 
 
 def _tr_rule(t):
-    return ("tr", t.id, t.closed, bytes(t.inbound), t.peer_eof, len(t.layers), t.peer)
+    return ("tr", str(t.host), str(t.port), t.closed, bytes(t.inbound), t.peer_eof, len(t.written), t.read_total,
+            [(l["sni"], l["alpn"]) for l in t.layers], t.peer)
 
 
 EXTRA_RULES = {sim.Net: _net_rule, sim.Transport: _tr_rule, sim.Op: _op_rule,
